@@ -455,4 +455,73 @@ def uMu (c : Cfg UShared ULocal) : Nat := (c.ths.map (uWeight c.sh)).sum
 def uFinal (ord : StartOrder) (n : Nat) (s : Schedule) : Cfg UShared ULocal :=
   run (uProg ord) (s ++ rounds (n + 1) (8 * n + 5)) (uInit ord n)
 
+/-! ## Close against a background loop that is in the middle of a tick
+
+The in-memory storage's cleaner (internal/core/storage/memory/memory_ops.go `StartCleanup`):
+`for { select { case <-ticker.C: CleanupExpired() (takes m.mu); case <-m.cleanupStop: return } }`,
+the stop channel field being re-read at every `select`.  `StopCleanup` (run once, by the dispose
+latch, under `m.mu`) stops the ticker and closes the channel.  Thread 0 is a reader that holds
+`m.mu` (pending I/O) until it is unblocked, thread 1 the cleaner with a budget of `k` ticks (a tick
+that is ready is taken even if the stop channel is closed too: adversarial `select`), threads
+2… are closers.  `StopVariant.replace` is the rejected variant that installs a fresh channel in
+the field after closing the old one. -/
+
+inductive StopVariant | keep | replace
+  deriving DecidableEq, Repr
+
+structure GShared where
+  lock : Option Nat        -- m.mu
+  latch : Bool             -- Dispose.closed
+  tickerStopped : Bool
+  gen : Nat                -- which channel object is in the field m.cleanupStop
+  closedUpTo : Nat         -- channel objects with a smaller number are closed
+  deriving DecidableEq, Repr
+
+inductive GPc | rHold | cLatch | cStop | enter | wait | tick | done
+  deriving DecidableEq, Repr
+
+structure GLocal where
+  pc : GPc
+  k : Nat                  -- cleaner: ticks still to come
+  g : Nat                  -- cleaner: channel object this select waits on
+  deriving DecidableEq, Repr
+
+def gStep (v : StopVariant) (_tid : Nat) (sh : GShared) (l : GLocal) : GShared × GLocal :=
+  match l.pc with
+  | .rHold => ({ sh with lock := none }, { l with pc := .done })
+  | .cLatch => if sh.latch then (sh, { l with pc := .done }) else ({ sh with latch := true }, { l with pc := .cStop })
+  | .cStop =>
+    match sh.lock with
+    | some _ => (sh, l)
+    | none => ({ sh with tickerStopped := true, closedUpTo := sh.gen + 1,
+                         gen := match v with | .keep => sh.gen | .replace => sh.gen + 1 },
+               { l with pc := .done })
+  | .enter => (sh, { l with pc := .wait, g := sh.gen })
+  | .wait =>
+    match l.k with
+    | k' + 1 => (sh, { l with pc := .tick, k := k' })
+    | 0 => if l.g < sh.closedUpTo then (sh, { l with pc := .done }) else (sh, l)
+  | .tick =>
+    match sh.lock with
+    | some _ => (sh, l)
+    | none => (sh, { l with pc := .enter })
+  | .done => (sh, l)
+
+def gProg (v : StopVariant) : Prog GShared GLocal := ⟨gStep v⟩
+
+def gInit (k n : Nat) : Cfg GShared GLocal :=
+  ⟨⟨some 0, false, false, 0, 0⟩,
+   ⟨.rHold, 0, 0⟩ :: ⟨.enter, k, 0⟩ :: List.replicate n ⟨.cLatch, 0, 0⟩⟩
+
+def gWeight (l : GLocal) : Nat :=
+  match l.pc with
+  | .rHold => 1 | .cLatch => 2 | .cStop => 1
+  | .enter => 3 * l.k + 2 | .wait => 3 * l.k + 1 | .tick => 3 * l.k + 3
+  | .done => 0
+
+def gMu (c : Cfg GShared GLocal) : Nat := (c.ths.map gWeight).sum
+
+def gFinal (v : StopVariant) (k n : Nat) (s : Schedule) : Cfg GShared GLocal :=
+  run (gProg v) (s ++ rounds (n + 2) (3 * k + 3 + 2 * n)) (gInit k n)
+
 end Tunnox.C16
